@@ -40,7 +40,10 @@ def cases(tier, seed):
              "strategy": ["nmpfit", "scipy"][i % 2], "subset": bool((i // 2) % 2), "start": ["truth", "perturbed"][(i // 4) % 2] if i >= 4 else ["truth", "perturbed"][i % 2],
              "perturb": [float(v) for v in rng.uniform(-0.02, 0.02, 6)], "seed": [seed, "fit", i], "cost": 10,
              # every fourth problem has bounds hugging the truth (+-3 %), so that the bounds handed to the minimiser matter
-             "tight_bounds": bool(i % 8 in (1, 4))}
+             "tight_bounds": bool(i % 8 in (1, 4)),
+             # region-of-interest style detectors: anisotropic pixels and different x / y offsets (every second problem)
+             "spacing_y_factor": float(rng.uniform(0.8, 1.25)) if i % 2 else 1.0,
+             "offset": [float(rng.uniform(0.5, 3)), float(rng.uniform(4, 8))] if (i // 2) % 2 == 0 else [0.0, 0.0]}
         out.append(c)
     return out
 
@@ -64,14 +67,19 @@ def run_case(case):
     if fit_la:
         truth["lens_angle"] = case["lens_angle"]
     nmed, wl, pol = 1.33, 0.66, (1, 0)
-    det = hp.detector_grid(N, sp)
+    spy = sp * case.get("spacing_y_factor", 1.0)
+    off = case.get("offset", [0.0, 0.0])
+    det = hp.detector_grid(N, (sp, spy))
+    det = det.assign_coords(x=det.x.values + off[0], y=det.y.values + off[1])
+    truth["x"] = off[0] + case["fx"] * N * sp
+    truth["y"] = off[1] + case["fy"] * N * spy
     th_true = MieLens(lens_angle=case["lens_angle"]) if lens else Mie()
     data = calc_holo(det, Sphere(n=case["n"], r=truth["r"], center=(truth["x"], truth["y"], truth["z"])), nmed, wl, pol, theory=th_true, scaling=truth["alpha"])
     data = update_metadata(data, noise_sd=0.05)
     keys = ["r", "x", "y", "z", "alpha"] + (["lens_angle"] if fit_la else [])
     pert = dict(zip(["r", "x", "y", "z", "alpha", "lens_angle"], case["perturb"]))
     guess = {k: truth[k] * (1 + (pert[k] if case["start"] == "perturbed" else 0.0)) for k in keys}
-    bounds = {"r": (0.1, 1.5), "x": (0.0, W), "y": (0.0, W), "z": (1.0, 40.0), "alpha": (0.3, 1.2), "lens_angle": (0.3, 1.3)}
+    bounds = {"r": (0.1, 1.5), "x": (off[0], off[0] + W), "y": (off[1], off[1] + N * spy), "z": (1.0, 40.0), "alpha": (0.3, 1.2), "lens_angle": (0.3, 1.3)}
     if case.get("tight_bounds"):
         bounds = {k: (truth[k] * 0.97, truth[k] * 1.03) for k in keys}
     pri = {k: Uniform(bounds[k][0], bounds[k][1], guess=guess[k], name=k) for k in keys}
@@ -122,6 +130,8 @@ def run_case(case):
         resid["hologram_vs_model_forward"] = relmax(hv.transpose(*full.dims).values, full.values) if hv.shape == full.shape or set(hv.dims) == set(full.dims) else relmax(hv.values.ravel(), full.transpose("x", "y", "z").values.ravel())
     except Exception:
         resid["hologram_vs_model_forward"] = relmax(np.sort(hv.values.ravel()), np.sort(full.values.ravel()))
+    if set(holo.dims) >= {"x", "y"}:
+        flags["hologram_on_detector_coordinates"] = bool(np.allclose(holo.x.values, data.x.values, rtol=0, atol=1e-12) and np.allclose(holo.y.values, data.y.values, rtol=0, atol=1e-12))
     lp = model.lnposterior(got, res.data)
     resid["max_lnprob"] = fnum(abs(res.max_lnprob - lp) / max(1.0, abs(lp)))
     # second fit with the very same objects
